@@ -44,7 +44,7 @@ def b_rules(p: Project, rep: Report):
     schema = Schema(p)
     rep.rule("B-R1", "for both header classes the fields written by __str__, the named groups of the parsing regex and the constructor parameters agree (same set; same order for writer and regex); each written value is the attribute of the same name")
     rep.rule("B-R2", "every constructor parameter is stored under its own name, every stored field has a class-level validator, and every store lies inside the try that turns ValueError into OFXHeaderError")
-    rep.rule("B-R4", "validators: OFXHEADER is OneOf(100) / OneOf(200); all four file-UID fields are String(36); v1 VERSION is a 3-digit Integer, v2 VERSION an enumeration of 2xx values; SECURITY agrees between the classes")
+    rep.rule("B-R4", "validators: OFXHEADER is OneOf(100) / OneOf(200); all four file-UID fields are String(36); v1 VERSION is a 3-digit Integer, v2 VERSION an enumeration of 2xx values; SECURITY agrees between the classes; the v1 token fields admit exactly the OFX 1.x tokens (DATA: OFXSGML; COMPRESSION: NONE; CHARSET: ISO-8859-1, 1252, NONE; ENCODING: USASCII, UNICODE and at most UTF-8 beside them)")
     rep.rule("B-R5", "parse() hands the captured strings to the constructor unmodified (keys lower-cased only) and fails with OFXHeaderError when the regex does not match")
     rep.rule("B-R6", "reader covers writer: for every field, every token its validator admits (and the UID alphabet [A-Za-z0-9_-], up to 36 characters) is in the language of the field's regex group")
     for clsname, major in (("OFXHeaderV1", 1), ("OFXHeaderV2", 2)):
@@ -121,6 +121,17 @@ def b_rules(p: Project, rep: Report):
             rep.check("B-R4", f"{clsname}.version", ok, f"VERSION validator is {k}{a}; expected the supported 2xx versions", hloc(p, ci.node))
         k, a, kw = args_of("security")
         rep.check("B-R4", f"{clsname}.security", k == "OneOf" and set(a) == {"NONE", "TYPE1"}, f"SECURITY validator is {k}{a}", hloc(p, ci.node))
+        if major == 1:
+            for fname_, exact, atleast in (("data", {"OFXSGML"}, None), ("compression", {"NONE"}, None), ("charset", {"ISO-8859-1", "1252", "NONE"}, None), ("encoding", {"USASCII", "UNICODE", "UTF-8"}, {"USASCII", "UNICODE"})):
+                k, a, kw = args_of(fname_)
+                if k is None:
+                    continue
+                toks = set(x for x in a if isinstance(x, str))
+                if k != "OneOf" or len(toks) != len(a):
+                    rep.check("B-R4", f"{clsname}.{fname_}", False, f"{fname_.upper()} validator is {k}{a}; expected an enumeration of tokens", hloc(p, ci.node))
+                    continue
+                extra, missing = sorted(toks - exact), sorted((atleast or exact) - toks)
+                rep.check("B-R4", f"{clsname}.{fname_}", not extra and not missing, f"{fname_.upper()} admits {sorted(toks)}: " + (f"{extra} are not {fname_.upper()} tokens of OFX 1.x - a header carrying them is accepted instead of refused" if extra else f"the valid tokens {missing} are refused"), hloc(p, ci.node))
         # B-R6 reader covers writer
         for fname, call in vals.items():
             kind = schema.type_kinds(call)[0]
